@@ -149,6 +149,33 @@ func (e *vxC18Env) run(c vxC18Case) {
 		}
 		_ = os.Remove(path)
 		_ = os.Remove(file)
+	case 4:
+		// path shape: <root dir>/conf/plugins/../tool where plugins is a symlink to <root dir>/user/plugins.
+		// The kernel resolves it to user/tool (the file under test, state A); a textual clean-up of the path
+		// would instead name conf/tool, a root-controlled decoy. The verdict must be about the file that runs.
+		root := filepath.Join(e.dir, base+".d")
+		for _, d := range []string{"conf", "user/plugins"} {
+			if err := os.MkdirAll(filepath.Join(root, d), 0o755); err != nil {
+				panic(err)
+			}
+		}
+		decoyMarker := filepath.Join(e.dir, base+".decoy")
+		if err := os.WriteFile(filepath.Join(root, "conf", "tool"), []byte("#!/bin/sh\n: > "+decoyMarker+"\necho decoy\n"), 0o755); err != nil {
+			panic(err)
+		}
+		file := filepath.Join(root, "user", "tool")
+		if err := os.WriteFile(file, []byte("#!/bin/sh\n: > "+marker+"\necho ran\n"), 0o700); err != nil {
+			panic(err)
+		}
+		if err := c.A.Apply(file); err != nil {
+			panic(err)
+		}
+		if err := os.Symlink(filepath.Join(root, "user", "plugins"), filepath.Join(root, "conf", "plugins")); err != nil {
+			panic(err)
+		}
+		e.judge(c, "first", c.A, e.exec(filepath.Join(root, "conf", "plugins")+"/../tool", marker))
+		_ = os.Remove(decoyMarker)
+		_ = os.RemoveAll(root)
 	case 3:
 		fa := e.script(base+"a", marker, c.A)
 		fb := e.script(base+"b", marker, c.B)
@@ -186,7 +213,7 @@ func TestVX_C18(t *testing.T) {
 	}
 
 	idx := 0
-	var n1, n2, n3 int64
+	var n1, n2, n3, n4 int64
 	// part 1: the complete grid
 	for _, uid := range vcmd.Owners {
 		for _, gid := range vcmd.Owners {
@@ -221,7 +248,14 @@ func TestVX_C18(t *testing.T) {
 				n3++
 			}
 		}
+		// part 4: the path reaches the file through "<symlinked directory>/.."
+		idx++
+		if mc.Mine(idx) {
+			e.run(vxC18Case{Part: 4, A: a})
+			n4++
+		}
 	}
+	rep.Count("part4 paths through a symlinked directory and '..'", n4)
 	rep.Count("part1 files (owner x group x 512 modes x direct/symlink)", n1)
 	rep.Count("part2 change-between-executions pairs", n2)
 	rep.Count("part3 symlink-retarget pairs", n3)
